@@ -62,7 +62,7 @@ def seq_spec(prop, sweep, quick, thorough, rule, after_op=None, tier_kw=None, pr
             rule,
             "sequential-history",
             components_stub=STUBS,
-            fault_kinds=["op_reopen", "op_clear", "recovered_crash_states", "abandoned_requests"],
+            fault_kinds=["op_reopen", "op_clear", "recovered_crash_states", "abandoned_requests", "requests_retried_after_recovery", "input_stream_faults"],
             assumptions=ASSUME,
             **kw
         )
